@@ -94,7 +94,7 @@ class CrossTalk(Stage):
     name = 'cross-talk'
 
     def examples(self, tier):
-        return 200 if tier == 'quick' else 14 * 1500
+        return 400 if tier == 'quick' else 14 * 2000
 
     def gen(self, d, tier):
         specs = histgen.history(d, nconn=d.int(1, 2), nmsg=d.int(6, 30), profile=PROFILE, tagged=True)
